@@ -92,14 +92,15 @@ CLAIMS = {
             "overwriting every cell it can reach cannot change singleton or configuration-owned cells that later calls read) and C12_history (a response depends on state, request and pre-set headers only). "
             "Tie: history and serve suites run with -adversarial (the harness overwrites every slice of the Config passed in, of every Config() result, and - inside the wrapped handler - of the request and response header maps) and are compared with the model.",
             '6/C12', 'PARTIAL w.r.t. Go aliasing: that the extractor classifies every Go expression correctly (v[:1] shares, []string{x} and Header.Add/Set allocate, slices.Clone/strings.Split/Elems allocate) is trusted and exercised by the adversarial harness, not proved.'),
-    'C13': ('proof', 'Lean 4 theorems (acceptance of the documented grammar for domain hosts, self-match, documented constants and alphabets, shape of accepted patterns, grammar-independent rejections) + differential tie on grammar-directed strings with a grammar judge',
+    'C13': ('proof', 'Lean 4 theorems (acceptance of the documented grammar: domain hosts outright, IPv4 outright, IPv6 and Punycode relative to the library oracles; self-match; form of every accepted pattern and rejection of the documented defects; documented constants and alphabets) + differential tie on grammar-directed strings with a grammar judge',
             "Theorems C13_accept (every pattern of the documented form with a domain host - Spec/Grammar.lean, the grammar given generatively by parts: scheme, optional `*.`, LDH labels, optional trailing dot, optional port or `:*` - is accepted by the model of ParsePattern "
-            "for every behaviour of the library oracles and parses to exactly its parts), C13_self (an accepted pattern without `*.`/`:*`, presented verbatim as Origin within the length cap, is parsed by the request-side lexer into an origin the pattern denotes), "
+            "for every behaviour of the library oracles and parses to exactly its parts), C13_accept_ipv4 (dotted-quad hosts, loopback iff the first field is 127), C13_accept_idna (any lexical domain that passes the IDNA check of the model, i.e. Punycode hosts relative to profile.ToASCII), "
+            "C13_accept_ipv6 (bracketed literals relative to netip.ParseAddr: zone-free, not IPv4-mapped, canonical text = the literal), C13_reject_ipv6_defects (conversely every accepted IPv6 pattern has these three properties), C13_self (an accepted pattern without `*.`/`:*`, presented verbatim as Origin within the length cap, is parsed by the request-side lexer into an origin the pattern denotes), "
             "C13_accept_self (a documented wildcard-free pattern presented verbatim as an Origin parses and is denoted, also at all length maxima at once), C13_accepted_form / C13_reject_bad_host_byte (every accepted bracket-free pattern is literally scheme://host + nothing / `:*` / `:`canonical-decimal(1..65535), "
             "host bytes from the documented alphabet: upper-case and non-ASCII hosts, userinfo, path, query, fragment, whitespace, empty/zero/over-range/over-long/leading-zero ports are rejected), "
             "C13_constants / C13_alphabets (the regenerated length maxima, ports, separators and byte tables are the documented ones; the request-side cap is the sum of the maxima), C13_accepted_shape, C13_reject_null/_star/_file/_no_sep/_bad_first_byte (Props/C13.lean). "
             "Tie: `lex` suite (ParsePattern verdict and Reason, Parse results on grammar-directed strings, patterns at every maximum at once, single-defect and boundary-splice mutations), judged by an independent grammar oracle.",
-            '6/C13', 'PARTIAL: acceptance of IP-literal and Punycode hosts and the IP-literal defects (zoned, IPv4-mapped, non-canonical) are tie-only (their verdicts come from netip and idna, modelled as oracles); grey zones (`_`, hyphens in label positions 3-4, digit-leading last label) are excluded from the grammar.'),
+            '6/C13', 'IPv6 literals and Punycode labels are judged by net/netip and x/net/idna, modelled as oracles: the theorems about them are relative to the oracle answers, which the tie takes from the real libraries per case; grey zones (`_`, hyphens in label positions 3-4, digit-leading last label) are excluded from the grammar.'),
     'C14': ('proof', 'Lean 4 equivalence proof model = specification (induction over fuel/lines/elements; strict total order on byte strings) + differential tie',
             "Theorems C14 / C14_sound / C14_browser / C14_wf (Props/C14.lean): for every SortedSet maintained by Add and every sequence of field lines over arbitrary bytes, "
             "the model of headers.Check (windowed comma cut of maxLen+3 bytes, bounded OWS trimming with its check-before-test order, global empty-element counter, IndexAfter on the "
@@ -111,11 +112,11 @@ CLAIMS = {
             "Theorem C15_full (Props/C15.lean): two accepted configurations whose lists mean the same sets (relation Twin, Proofs/Twins.lean: same origin patterns, same effective methods after normalisation, "
             "same effective header names after byte-lowercasing, `*` and Authorization listed in both or neither, equal scalars) satisfy Serve.serve i1 = Serve.serve i2 - the same function of debug flag, request and "
             "pre-existing header map. Twin.of_same_members / respell_requestHeaders / respell_responseHeaders / respell_methods / add_safelisted_method / symm / trans show that reordering, duplication, re-casing, method re-spelling "
-            "and dropped entries yield twins; C15_perm is the permutation corollary; C15_star_auth, C15_errors_perm, C15_accept_perm as before. Proof ingredients: sorted sets are canonical (SortedSet.ext_members), "
+            "and dropped entries yield twins; C15_perm is the permutation corollary; C15_accept_members (via allErrs_nil_iff): configurations whose lists have the same members in any order and multiplicity are accepted or rejected together; C15_star_auth, C15_errors_perm, C15_accept_perm as before. Proof ingredients: sorted sets are canonical (SortedSet.ext_members), "
             "the folds of validateMethods / validateRequestHeaders / validateResponseHeaders are characterised by flags-as-disjunctions and member sets (Proofs/Folds.lean), the handler reads the tree only through IsEmpty and Contains, C01_config. "
             "Tie: the `twins` suite builds a twin by permuting/duplicating entries, re-casing header names, re-spelling normalisable methods and adding safelisted names, and compares the two Go middlewares' responses on derived requests in both debug modes; "
             "the validate and serve suites tie the model's folds and handler to the code.",
-            '6/C15', 'C15_full assumes both twins are accepted (C15_accept_perm covers acceptance for permutations only) and the C01 hypothesis that the IPv6 oracle accepts no `*`-leading literal.'),
+            '6/C15', 'C15_full takes both acceptances as hypotheses; C15_accept_members transfers acceptance for same-members twins (order, multiplicity), not for re-spelt entries; it also needs the C01 hypothesis that the IPv6 oracle accepts no `*`-leading literal.'),
     'C16': ('proof', 'Lean 4 theorem (value-provenance invariant of the preflight buffer) + differential tie',
             "Theorems C16 / C16_fail / C16_distinct / C16_accepted (Props/C16.lean): debug off, any preflight: status is the single regenerated failure status or the configured "
             "success status (distinct for accepted configurations); with the failure status nothing but Vary changes; every header value the middleware sets is `*`, `true`, "
